@@ -473,8 +473,10 @@ namespace
           bool share = false;
           for(const Key& k : pk[q][0]) if(vr.count(k)) { share = true; break; }
           const bool listed = std::find(neigh[r].begin(), neigh[r].end(), int(q)) != neigh[r].end();
-          if(share != listed) sim::fail(share ? "NEIGHBOUR_MISSING" : "NEIGHBOUR_SPURIOUS", where + ": patches " + std::to_string(r) + " and " + std::to_string(q) + (share ? " share a vertex but are not neighbours" : " are neighbours but share no vertex"));
-          if(!listed || q < r) continue;
+          // complete and symmetric, as the property says (a neighbour without a common vertex is not forbidden by it)
+          if(share && !listed) sim::fail("NEIGHBOUR_MISSING", where + ": patches " + std::to_string(r) + " and " + std::to_string(q) + " share a vertex but are not neighbours");
+          if(listed != (std::find(neigh[q].begin(), neigh[q].end(), int(r)) != neigh[q].end())) sim::fail("NEIGHBOUR_ASYMMETRIC", where + ": patch " + std::to_string(q) + (listed ? " is" : " is not") + " a neighbour of patch " + std::to_string(r) + " but not the other way round");
+          if(!listed || !share || q < r) continue;
           const auto* hr = patches[r]->get_halo(int(q));
           const auto* hq = patches[q]->get_halo(int(r));
           if(hr == nullptr || hq == nullptr) sim::fail("HALO_MISSING", where + ": no halo between the neighbours " + std::to_string(r) + " and " + std::to_string(q));
